@@ -13,6 +13,9 @@ ROOT = "VROOT"
 
 # ---- alphabets ---------------------------------------------------------------------------
 LABELS = ["S", "NP", "VP", "PP", "AP", "CS", "CNP", "AVP", "SBAR", "ADJP"]
+# categories that have special head rules in the presets (negra / ptb)
+LABELS_HEADRULES = ["CO", "DL", "ISU", "QL", "CH", "MPN", "NM", "CAC", "MTA", "CCP", "AA",
+                    "PRN", "INTJ", "FRAG", "NX", "WHADVP", "UCP", "QP", "LST", "X"]
 LABELS_SPECIAL = ["X&Y", "A<B>", "Q\"", "R'S", "Ü"]
 EDGES_SPECIAL = ["E&", "<", "\""]
 POS = ["NN", "VVFIN", "ART", "ADJA", "APPR", "ADV", "PRELS", "NE"]
@@ -26,6 +29,7 @@ W_PAREN = ["(", ")", "-LRB-", "-RRB-", "[", "]", "{", "}", "a(b", "-LSB-"]
 W_PUNCT = [",", ".", "?", "!", ";", ":", "--", "-", "/", "..."]
 W_PAIR = ["\"", "'", "''", "`", "``"]
 W_HASH = ["#5021", "#12", "#", "#abc", "#1234x", "##", "#500th"]
+W_USPACE = ["10\u00a0000", "a\u2009b", "\u00a0", "x\u3000y"]      # not whitespace for the formats
 W_LEN = ["abcdefg", "abcdefgh", "abcdefghijklmno", "abcdefghijklmnop", "abcdefghijklmnopq"]
 P_PUNCT = ["$,", "$.", ":", "PUNCT"]
 
@@ -144,7 +148,7 @@ def gen_word(rng, k):
         return rng.choice(W_PAIR), rng.choice(P_PUNCT)
     cls = rng.choice(k["words"])
     pool = {"ascii": W_ASCII, "latin1": W_LATIN1, "wide": W_WIDE, "xml": W_XML,
-            "paren": W_PAREN, "len": W_LEN, "hash": W_HASH}[cls]
+            "paren": W_PAREN, "len": W_LEN, "hash": W_HASH, "uspace": W_USPACE}[cls]
     pool = pool[:max(1, k.get("vocab", 100))]
     return rng.choice(pool), rng.choice(k["pos"])
 
